@@ -25,7 +25,8 @@ def snapshot(d, shape):
     return {'regions': regions, 'parents': parents, 'own': own,
             'labels': [int(x) for x in d.index_map.ravel().tolist()],
             'params': dict(d.params), 'trunk': [s.idx for s in d.trunk],
-            'children': {s.idx: [c.idx for c in s.children] for s in d._structures_dict.values()}}
+            'children': {s.idx: [c.idx for c in s.children] for s in d._structures_dict.values()},
+            'iteration': [s.idx for s in d], 'newick': d.to_newick()}
 
 
 def leaf_ok(case, step_eff, d, s):
@@ -144,7 +145,7 @@ def oracle_step(case, before, d, step):
 def same_state(a, b, trunk_order=False):
     keys = ['regions', 'parents', 'own', 'labels', 'params', 'children']
     if trunk_order:
-        keys.append('trunk')
+        keys += ['trunk', 'iteration', 'newick']
     return [k for k in keys if a[k] != b[k]]
 
 
@@ -256,7 +257,33 @@ def float32_sum_stream(ctx):
             ctx.oracle_failure(info, fails[:3], {})
 
 
+def trunk_order_stream(ctx):
+    """Several separate trees: prune() with nothing to do leaves the order of the trunk, the iteration order
+    and the Newick text alone, straight after compute as well as after an earlier prune."""
+    rng = ctx.rng('c07-trunk-order')
+    for it in range(150 if ctx.quick else 1500):
+        shape = rng.choice([[rng.randint(6, 30)], [rng.randint(2, 5), rng.randint(3, 7)], [2, 2, rng.randint(2, 5)]])
+        n = gen.nprod(shape)
+        vals = [rng.randint(0, 9) for _ in range(n)]
+        c = {'shape': shape, 'vals': vals, 'dtype': 'float64', 'scale': 0, 'minv': rng.randint(2, 6),
+             'delta': 0, 'npix': [rng.choice([0, 0, 2]), 1], 'adj': ['grid', [False] * len(shape)]}
+        try:
+            d = impl.run_compute(c)
+            fresh = snapshot(d, tuple(shape))
+            d.prune()
+            diff = same_state(fresh, snapshot(d, tuple(shape)), trunk_order=True)
+        except Exception as e:
+            diff = ['(raised %r)' % (e,)]
+        ctx.count('trunk_order_cases')
+        ctx.count('trunk_size=%s' % min(len(fresh['trunk']), 4))
+        ctx.case_done(c, (tuple(vals), tuple(shape), c['minv']) if len(fresh['trunk']) > 1 else None)
+        if diff:
+            ctx.oracle_failure({'case': c, 'history': ['compute', 'prune()']},
+                               ['prune() straight after compute (criteria every leaf already meets) changed %s' % diff])
+
+
 def explore(ctx):
+    trunk_order_stream(ctx)
     float32_sum_stream(ctx)
     junction_stream(ctx)
     level_criterion_stream(ctx)
@@ -273,6 +300,21 @@ def explore(ctx):
         shape = tuple(c['shape'])
         history = ['compute']
         others = []
+        if not c.get('delta', 0) and not c.get('crit') and rng.random() < 0.5:
+            # straight after compute every leaf meets the recorded criteria (pixel counts only):
+            # prune() without arguments changes nothing -- not the order of the trunk, the iteration
+            # order or the Newick text either
+            try:
+                fresh = snapshot(d, shape)
+                d.prune()
+                diff = same_state(fresh, snapshot(d, shape), trunk_order=True)
+            except Exception as e:
+                diff = ['(raised %r)' % (e,)]
+            ctx.count('noop_prune_after_compute')
+            if diff:
+                ctx.oracle_failure({'case': c, 'history': ['compute', 'prune()']},
+                                   ['prune() straight after compute (criteria every leaf already meets) changed %s' % diff])
+                continue
         cur_delta = c.get('delta', 0)
         for k in range(rng.randint(1, 4)):
             step = dc.rand_prune_step(rng, c, cur_delta)
